@@ -13,7 +13,7 @@ import (
 
 func init() {
 	register("C07", &propDef{
-		Run: checkC07,
+		Run:         checkC07,
 		Explanation: "Static decision of the structural clauses of C07. (1) Default template: exactly two curl commands, both carrying the same pin and https://{{.URL}}, with paths /i/{{.ID}} and /o/{{.ID}} built from the same field; every field sits in a quoting context in which the ID alphabet and the pin are inert. (2) ID: TemplateParams.ID is strconv.FormatUint/FormatInt in a base ≤ 36 (or hex / URL-safe base32/64) of a value drawn inside the handler from an automatically seeded generator; nothing in the module seeds math/rand. (3) Callback address precedence: c2URL is walked by the finite abstract interpreter for every valuation of (ParseForm error, c2 form value, c2 header, Host, IDNA error, SNI, listen port 443 or not, port lookup error); on every path the returned value is the first non-empty source in the order parameter, header, IDNA(Host), SNI (+ listen port unless 443), and errors yield no address; the parameter and header are read with the constant \"c2\". (4) Re-read per request: with a template file configured every path of the script handler reads and parses the file in this call; functions reachable from the route handlers never store to Server fields or package variables (nothing can be cached). (5) No script on error: the response writer receives body bytes only from a buffer freshly allocated in this call and only below the nil edges of the template, address and execution errors; every error path sets an error status. Whether /bin/sh and curl then attach is outside.",
 		Assumptions: []string{"math/rand's top-level functions are randomly seeded (go ≥ 1.20, no rand.Seed in the module)", "text/template writes only to the writer it is given"},
 	})
